@@ -103,7 +103,13 @@ class Ref:
                     s = sec + tail
                 parts.append(self.section(s, si == 0))
             lines.append(' '.join(parts))
-        return '  ' + '\n  '.join(lines)
+        out = '  ' + '\n  '.join(lines)
+        fin = node.get('final', '')
+        if fin.startswith(' \\\\'):
+            out += '\n  '          # a final row separator opens an (empty) output line
+        elif fin == ' &':
+            out += ' '
+        return out
 
 def simple_ref(node, lang):
     p = params(lang)
@@ -142,14 +148,17 @@ def judge(case, res):
             # one placeholder of the display collection (which one is not prescribed) plus the final punctuation mark
             p = params(lang)
             tail = nd['punct'] if nd['punct'] in p['punct'] else ''
-            ok = any(got.strip('\n') == '  ' + ph + tail for ph in p['display'])
+            ok = any(got.strip('\n') == '  ' + ph + tail for ph in p['display'])      # also with a final \\ or & behind the mark
             if not ok:
                 fails.append('simple mode: equation %r is rendered %r, expected one placeholder plus %r' % (src[a:b], got, tail))
                 break
             continue
         want = ref.equation(nd)
         # a detached flow anchored in the equation adds its separators: ignore line breaks at both ends
-        if got.strip('\n') != want:
+        g2, w2 = got.strip('\n'), want
+        if nd.get('final', '').startswith(' \\\\'):
+            g2, w2 = got.rstrip(' \n').lstrip('\n'), want.rstrip(' \n')     # the empty last line is trimmed by blank-line removal
+        if g2 != w2:
             fails.append('equation %r is rendered %r, the documented scheme gives %r' % (src[a:b], got, want))
             break
     for bad in ('\\alpha', '\\frac', '\\sqrt', '\\sum', 'f(x)', '\\mathbb', '\\beta', '\\xi', '^2', '_{', '\\label', '\\nonumber'):
